@@ -204,7 +204,7 @@ let handle f = match f with
            | t :: r ->
              let (tb, _) = take (int_of_string t) r in
              let v = { v_sheets = List.map (fun s -> (text_of_wire s, [])) sh; v_defnames = defs dn;
-                       v_tables = List.map text_of_wire tb; v_locale = []; v_tz = [] } in
+                       v_tables = List.map text_of_wire tb; v_locale = []; v_tz = []; v_has_cf = false } in
              let tokens = List.map atom_token toks in
              dump_s (parse_stored (fun _ -> tokens) (names_of "en") v (text_of_wire ctx) [])
            | [] -> "badcase-env")
